@@ -59,3 +59,41 @@ Theorem C14_listing_transcript : forall w path names r1 r2 rest x1 x2 x3 ip port
       told (w_obs w) (OFileList (delivered (c_type (w_cfg w)) (concat (dp_segs (r_data r2))))) ++ told (w_obs w) (OReply x3).
 Proof. exact list_passive_complete. Qed.
 Print Assumptions C14_listing_transcript.
+
+(* ---- observers that unregister observers from inside a callback (Observers.v: the model of for_each_observer - one
+   notification round over a copy of the list, skipping whoever is no longer registered; [react o] = the observers that
+   o unregisters when it is told). The protocol model above takes callbacks that only listen; that is the special case
+   [C14_passive_observers_all_told]. *)
+From LibFtp Require Import Observers.
+Local Close Scope N_scope.
+
+(* an observer that is not (or no longer) registered when its turn comes is not told: "an observer that has been removed
+   receives nothing further" inside a round too - whether it was unregistered by an observer told before it or by itself *)
+Theorem C14_not_registered_not_told : forall react copy live o, ~ In o live -> ~ In o (fst (round react copy live)).
+Proof. exact not_registered_not_told. Qed.
+Print Assumptions C14_not_registered_not_told.
+
+Theorem C14_unregistered_in_the_round_gets_nothing_further : forall react a rest live o,
+  In a live -> In o (react a) -> ~ In o (fst (round react rest (unregister (react a) live))).
+Proof. exact unregistered_in_the_round_gets_nothing_further. Qed.
+Print Assumptions C14_unregistered_in_the_round_gets_nothing_further.
+
+(* registration order is kept (the told list is the registration list with some members left out), and whoever stays
+   registered throughout is told *)
+Theorem C14_round_keeps_order : forall react copy live, sublist (fst (round react copy live)) copy.
+Proof. exact told_is_a_sublist. Qed.
+Print Assumptions C14_round_keeps_order.
+
+Theorem C14_registered_throughout_is_told : forall react copy live o,
+  In o copy -> In o live -> (forall x, In x copy -> ~ In o (react x)) -> In o (fst (round react copy live)).
+Proof. exact registered_throughout_is_told. Qed.
+Print Assumptions C14_registered_throughout_is_told.
+
+Theorem C14_passive_observers_all_told : forall live, notify_round (fun _ => []) live = (live, live).
+Proof. exact passive_observers_all_told. Qed.
+Print Assumptions C14_passive_observers_all_told.
+
+Example C14_example_round :
+  (* 1, 2, 3 registered; told, 1 unregisters 3 and 2 unregisters itself: told = 1, 2; registered afterwards: 1 *)
+  notify_round (fun o => match o with 1 => [3] | 2 => [2] | _ => [] end) [1; 2; 3] = ([1; 2], [1]).
+Proof. vm_compute. reflexivity. Qed.
